@@ -17,7 +17,9 @@ MANIFEST = {
             'linear and quadratic root formulas (solve_quadratic with its masks, duplicate masking and sort) return '
             'exactly the distinct real roots in increasing order with masked padding over any linearly ordered field '
             'with a square-root function; and that the order>=3 post-processing of the companion-matrix eigenvalues '
-            'returns exactly the distinct real eigenvalues, sorted, masked last. Tied to /repo on every run: the same '
+            'returns exactly the distinct real eigenvalues, sorted, masked last; derivatives of coefficients obey the sum, '
+            'Leibniz, power and chain rules; leading axes broadcast by NumPy\'s rule with masks united (array-level theorems). '
+            'Tied to /repo on every run: the same '
             'operands go to the real code and to the compiled model (Int for ring operations, IEEE Float for roots, '
             'compared bit for bit, LAPACK eigenvalues recorded from the real call) and every case is judged directly '
             'against numpy.polyadd/polysub/polymul/polyder/polyval/roots.',
@@ -35,10 +37,12 @@ RULE = ('orders 0-5 (thorough 0-7) x broadcast-compatible and incompatible leadi
 ASSUMPTIONS = [
     'theorems are over commutative rings / linearly ordered fields with an exact square root; the code runs float64 '
     '(exact for the integer-valued operands of the tie for + - *, correctly rounded for / and sqrt)',
-    'order >= 3: np.linalg.eigvals returns the multiset of complex roots of the monic shifted polynomial with the '
-    'extraneous zeros of shifted-out leading coefficients first (contract of roots_postprocess; checked on every case '
-    'against numpy.roots with tolerance); real roots of multiplicity >= 2 of order >= 3 polynomials are numerically '
-    'ill-conditioned and may be returned split or not at all (the oracle accepts both)',
+    'order >= 3 (roots_high_spectral_partial): of np.linalg.eigvals only (A) a real x occurs as (x,0) in its output iff '
+    'x^n - row(x) = 0 for the companion row, and (B) the first k entries are the exact zeros of the k shifted-out '
+    'leading coefficients and a further exact zero follows iff p(0) = 0; both are MONITORED on every case (residual of '
+    'every recorded eigenvalue in the monic polynomial <= 1e-8 scale, trace, exact zeros first, exact zero iff p(0)=0); '
+    'real roots of multiplicity >= 2 of order >= 3 polynomials are numerically ill-conditioned and may be returned '
+    'split or not at all (the oracle accepts both)',
     'unmasked values are finite (Scalar.sort uses +inf as the fill for masked entries)',
     'p**0 returns the shapeless unmasked Polynomial([1.]) whatever the mask/shape of p (modelled as the code does; '
     'the oracle checks the value only)',
@@ -114,6 +118,10 @@ class EigRecorder:
         np.linalg.eigvals = self.orig
 
 
+BIN = {'add': lambda u, v: u + v, 'sub': lambda u, v: u - v, 'rsub': lambda u, v: u.__rsub__(v), 'mul': lambda u, v: u * v}
+UN = {'neg': lambda u, n: -u, 'deriv': lambda u, n: u.deriv(), 'pow': lambda u, n: u ** n, 'id': lambda u, n: u}
+
+
 def call(case):
     op = case['op']
     if op in ('add', 'sub', 'rsub', 'mul', 'iadd', 'isub'):
@@ -139,10 +147,30 @@ def call(case):
         return mkpoly(case['a']).roots()
     if op == 'evald':
         return mkpoly_d(case['a']).eval(mkscalar_d(case['x']))
-    if op == 'muld':
-        return mkpoly_d(case['a']) * mkpoly_d(case['b'])
-    if op == 'derivd':
-        return mkpoly_d(case['a']).deriv()
+    if op == 'bind':
+        return BIN[case['sym']](mkpoly_d(case['a']), mkpoly_d(case['b']))
+    if op == 'und':
+        return UN[case['sym']](mkpoly_d(case['a']), case.get('n', 0))
+    if op == 'smuld':
+        a, k = mkpoly_d(case['a']), float(case['k'])
+        return a * k if case['form'] == 'right' else k * a
+    if op == 'chaind':
+        s1, s2, s3 = case['syms']
+        return UN[s3](BIN[s2](BIN[s1](mkpoly_d(case['a']), mkpoly_d(case['b'])), mkpoly_d(case['c'])), case.get('n', 0))
+    if op == 'invline':
+        return mkpoly(case['a']).invert_line()
+    if op == 'sdiv':
+        a, k, f = mkpoly_d(case['a']), float(case['k']), case['form']
+        kp = Polynomial(np.array([k]))
+        if f == 'p/k': return a / k
+        if f == 'p/[k]': return a / kp
+        if f == 'p*=k': a *= k; return a
+        if f == 'p*=[k]': a *= kp; return a
+        if f == 'p/=k': a /= k; return a
+        if f == 'p/=[k]': a /= kp; return a
+    if op == 'eq':
+        a, b = mkpoly(case['a']), mkpoly(case['b'])
+        return (a == b) if case['form'] == 'eq' else (a != b)
     if op == 'rootsd':
         return mkpoly_d(case['a']).roots()
     raise KeyError(op)
@@ -175,13 +203,18 @@ def impl(case):
         if 't' not in r.derivs:
             return o + [['m' if p == 'm' else 0 for p in o[1]]]
         return o + [under(o[1], obs_scalar(r.d_dt)[1])]
-    if op in ('muld', 'derivd'):
+    if op in ('bind', 'und', 'smuld', 'chaind'):
         o = obs_poly(r)
         if 't' not in r.derivs:
             return o + [['m' if p == 'm' else [0] * len(p) for p in o[1]]]
         return o + [under(o[1], obs_poly(Polynomial(r.d_dt))[1])]
-    if op == 'rootsd':
+    if op in ('rootsd', 'sdiv', 'eq'):
         return 'oracle-only'
+    if op == 'invline':
+        assert isinstance(r, Polynomial)
+        m = expanded_mask(r).ravel()
+        v = np.broadcast_to(np.asarray(r._values_, dtype=float), tuple(r._shape_) + (2,)).reshape(-1, 2)
+        return [list(r._shape_), ['m' if m[i] else [bits(v[i, 0]), bits(v[i, 1])] for i in range(len(m))]]
     return obs_poly(r)
 
 
@@ -212,28 +245,17 @@ def oracle(case):
 def p_sx(o):
     return [o['shape'], o['len'], [int(v) for v in o['vals']], mask_sx(o['mask'], o['shape'])]
 
+def pd_sx(o):
+    return p_sx(o) + [[int(v) for v in (o.get('d') or [0] * len(o['vals']))]]
+
 def x_sx(o):
     return [o['shape'], [int(v) for v in o['vals']], mask_sx(o['mask'], o['shape'])]
 
 def harness_eigs(o):
-    """the eigenvalues LAPACK returns for the companion matrices polymath builds — computed here with plain
-    NumPy on an identically constructed stacked array (all-zero rows -> 1 x^n, leading zeros shifted out)"""
-    shape, n = list(o['shape']), o['len'] - 1
-    c = np.array(o['vals'], dtype=float).reshape(shape + [n + 1]).copy()
-    allz = np.all(c == 0., axis=-1)
-    c[allz, 0] = 1.
-    cnt = int(np.prod(shape, dtype=int))
-    flat = c.reshape(cnt, n + 1)
-    for i in range(cnt):
-        while flat[i, 0] == 0.:
-            flat[i, :-1] = flat[i, 1:].copy()
-            flat[i, -1] = 0.
-    c = flat.reshape(shape + [n + 1])
-    mat = np.empty(tuple(shape) + (n, n))
-    mat[..., :, :] = np.diag(np.ones((n - 1,)), -1)
-    mat[..., 0, :] = -c[..., 1:] / c[..., 0:1]
-    ev = np.linalg.eigvals(mat).reshape(cnt, n)
-    return [[[bits(np.real(z)), bits(np.imag(z))] for z in ev[i]] for i in range(cnt)]
+    """the eigenvalues LAPACK returns for the companion matrices polymath builds (computed by the oracle module with
+    plain NumPy on an identically constructed stacked array), as bit patterns for the model"""
+    rows, shifts, ev = O.companion_eigs(o)
+    return [[[bits(np.real(z)), bits(np.imag(z))] for z in ev[i]] for i in range(len(ev))]
 
 def request(case):
     op = case['op']
@@ -257,13 +279,17 @@ def request(case):
         a, x = case['a'], case['x']
         return ['c20', 'evald', p_sx(a) + [[int(v) for v in (a.get('d') or [0] * len(a['vals']))]],
                 x_sx(x) + [[int(v) for v in (x.get('d') or [0] * len(x['vals']))]]]
-    if op == 'muld':
-        a, b = case['a'], case['b']
-        return ['c20', 'muld', p_sx(a) + [[int(v) for v in (a.get('d') or [0] * len(a['vals']))]],
-                p_sx(b) + [[int(v) for v in (b.get('d') or [0] * len(b['vals']))]]]
-    if op == 'derivd':
+    if op == 'bind':
+        return ['c20', 'bind', case['sym'], pd_sx(case['a']), pd_sx(case['b'])]
+    if op == 'und':
+        return ['c20', 'und', case['sym'], case.get('n', 0), pd_sx(case['a'])]
+    if op == 'smuld':
+        return ['c20', 'smuld', pd_sx(case['a']), int(case['k'])]
+    if op == 'chaind':
+        return ['c20', 'chaind'] + list(case['syms']) + [case.get('n', 0), pd_sx(case['a']), pd_sx(case['b']), pd_sx(case['c'])]
+    if op == 'invline':
         a = case['a']
-        return ['c20', 'derivd', p_sx(a) + [[int(v) for v in a['d']]]]
+        return ['c20', 'invline', a['shape'], a['len'], [bits(v) for v in a['vals']], mask_sx(a['mask'], a['shape'])]
     if op == 'roots':
         a = case['a']
         if int(np.prod(a['shape'], dtype=int)) == 0:
@@ -363,7 +389,7 @@ def nontrivial(case):
         nt = True
     if x is not None and a['shape'] != x['shape']:
         nt = True
-    if case['op'] in ('roots', 'deriv', 'pow', 'eval', 'evald', 'muld', 'derivd', 'rootsd') and a['len'] >= 2:
+    if case['op'] in ('roots', 'deriv', 'pow', 'eval', 'evald', 'bind', 'und', 'smuld', 'chaind', 'rootsd', 'invline', 'sdiv') and a['len'] >= 2:
         nt = True
     return nt
 
@@ -377,8 +403,12 @@ def mk(case):
         k += ':' + case.get('xform', 'scalar')
     elif k == 'pow':
         k += ':%d' % case['n']
-    elif k in ('smul', 'sadd'):
+    elif k in ('smul', 'sadd', 'smuld', 'sdiv', 'eq'):
         k += ':' + case['form']
+    elif k in ('bind', 'und'):
+        k += ':' + case['sym']
+    elif k == 'chaind':
+        k += ':' + case['syms'][2]
     case['kind'] = k
     return case
 
@@ -449,13 +479,50 @@ def gen_cases(rng, tier):
             mode = rng.choice(['both', 'both', 'p', 'x'])
             cases.append(mk({'op': 'evald', 'a': with_d(a, rng, 1.0 if mode != 'x' else 0.0),
                              'x': with_d(x, rng, 1.0 if mode != 'p' else 0.0)}))
-            oa, ob = rng.randint(0, maxo), rng.randint(0, maxo)
-            a, b = rand_poly(rng, sa, oa), rand_poly(rng, sb, ob)
-            mode = rng.choice(['both', 'both', 'a', 'b'])
-            cases.append(mk({'op': 'muld', 'a': with_d(a, rng, 1.0 if mode != 'b' else 0.0),
-                             'b': with_d(b, rng, 1.0 if mode != 'a' else 0.0)}))
+            for sym in ('add', 'sub', 'rsub', 'mul'):
+                oa, ob = rng.randint(0, maxo), rng.randint(0, maxo)
+                a, b = rand_poly(rng, sa, oa), rand_poly(rng, sb, ob)
+                mode = rng.choice(['both', 'both', 'a', 'b'])
+                cases.append(mk({'op': 'bind', 'sym': sym, 'a': with_d(a, rng, 1.0 if mode != 'b' else 0.0),
+                                 'b': with_d(b, rng, 1.0 if mode != 'a' else 0.0)}))
+            # (a o1 b) o2 c, then a unary operation: derivatives must survive every intermediate object
+            sc = rng.choice(SHAPES[:7])
+            syms = [rng.choice(['add', 'sub', 'rsub', 'mul']), rng.choice(['add', 'sub', 'rsub', 'mul']),
+                    rng.choice(['neg', 'deriv', 'pow', 'id'])]
+            lim = 2 if syms[2] == 'pow' else 3
+            a, b, c = (rand_poly(rng, sa, rng.randint(0, lim)), rand_poly(rng, sb, rng.randint(0, lim)),
+                       rand_poly(rng, sc, rng.randint(0, lim)))
+            cases.append(mk({'op': 'chaind', 'syms': syms, 'n': rng.choice([0, 1, 2, 2, 3]),
+                             'a': with_d(a, rng, 0.8), 'b': with_d(b, rng, 0.8), 'c': with_d(c, rng, 0.5)}))
         for sh in SHAPES:
-            cases.append(mk({'op': 'derivd', 'a': with_d(rand_poly(rng, sh, rng.randint(0, maxo)), rng)}))
+            o = rng.randint(0, maxo)
+            cases.append(mk({'op': 'und', 'sym': 'deriv', 'a': with_d(rand_poly(rng, sh, o), rng)}))
+            cases.append(mk({'op': 'und', 'sym': 'neg', 'a': with_d(rand_poly(rng, sh, o), rng)}))
+            cases.append(mk({'op': 'und', 'sym': 'pow', 'n': rng.choice([0, 1, 2, 3, 4]) if o <= 3 else rng.choice([0, 1, 2]),
+                             'a': with_d(rand_poly(rng, sh, o), rng)}))
+            cases.append(mk({'op': 'smuld', 'k': rng.randint(-3, 3), 'form': rng.choice(['left', 'right']),
+                             'a': with_d(rand_poly(rng, sh, o), rng)}))
+            # division / in-place scaling by a number or a zero-order polynomial; == and != across orders (oracle only)
+            cases.append(mk({'op': 'sdiv', 'k': rng.choice([1, 2, -2, 4, 0, -1]),
+                             'form': rng.choice(['p/k', 'p/[k]', 'p*=k', 'p*=[k]', 'p/=k', 'p/=[k]']),
+                             'a': with_d(rand_poly(rng, sh, o), rng, 0.5)}))
+            qa = rand_poly(rng, sh, o)
+            qa['mask'] = 'F'
+            lead = rng.randint(0, 2)
+            n = int(np.prod(sh, dtype=int))
+            vals = []
+            for i in range(n):
+                e = qa['vals'][i * (o + 1):(i + 1) * (o + 1)]
+                if rng.random() < 0.3:
+                    e = list(e); e[-1] += 1
+                vals += [0] * lead + list(e)
+            qb = {'shape': list(sh), 'len': o + 1 + lead, 'vals': vals, 'mask': 'F'}
+            if rng.random() < 0.5:
+                qa, qb = qb, qa
+            cases.append(mk({'op': 'eq', 'form': rng.choice(['eq', 'ne']), 'a': qa, 'b': qb}))
+            # invert_line: order 1 (valid), other orders (ValueError)
+            cases.append(mk({'op': 'invline', 'a': rand_poly(rng, sh, 1)}))
+            cases.append(mk({'op': 'invline', 'a': rand_poly(rng, sh, rng.choice([0, 2, 3]))}))
             for o in range(1, maxo + 1):
                 if int(np.prod(sh, dtype=int)) > 0:
                     cases.append(mk({'op': 'rootsd', 'a': with_d(rand_root_poly(rng, sh, o), rng)}))
